@@ -203,7 +203,7 @@ def gen_cases(rng, tier):
         n0 = 0 if i % 3 == 0 else rng.randint(1, 3)
         add({'kind': 'seqzt', 'x': [fs(v) for v in x], 'n0': n0, 'z': fs(rnd(rng, nz=True, big=9) + F(1, 3))})
     # J z-transform of expressions
-    for i in range(96 * k):
+    for i in range(72 * k):
         add(gen_zt(rng, i))
     # J' z-transform followed by the inverse transform
     for i in range(16 * k):
